@@ -20,6 +20,14 @@ OPS = [
     (r"if (.+) \{$", r"if !(\1) {"), (r"if (.+)\{$", r"if !(\1){"),
     (r"\* 2\b", "* 1"), (r"cmp::max", "cmp::min"), (r"\bsize\(\)", "size() + 1"),
 ]
+OPS2 = [
+    (r"ptr::copy\(", "ptr::copy_nonoverlapping("), (r"ptr::copy_nonoverlapping\(", "ptr::copy("), (r"size_of::<", "align_of::<"), (r"\.size\(\)", ".align()"), (r"\.align\(\)", ".size()"),
+    (r"\bself\.len\b(?!\s*[-+]?=)", "self.capacity()"), (r"\bself\.capacity\(\)", "self.len"), (r"\bstart\b", "end"), (r"\bend\b", "start"), (r"\b128\b", "64"), (r"\b128\b", "1024"),
+    (r"checked_mul", "wrapping_mul"), (r"checked_add", "wrapping_add"), (r"usize::MAX", "0"), (r"\bsrc_index\b", "dst_index"), (r"\bdst_index\b", "src_index"),
+    (r"\(src, dst,", "(dst, src,"), (r"\bindex\b", "last_index"), (r"\blen\b(?=\))", "len + 1"), (r"\blen\b(?=\))", "len - 1"), (r"Some\(", "None.or(Some("), (r"\.is_empty\(\)", ".is_empty() == false"),
+    (r"new_size == 0", "new_size == 1"), (r"self\.size == 0", "self.size == 1"), (r"\bnew_len\b", "self.len"), (r"elements_left", "0"), (r"replace_end", "self.start"), (r"element_size \* ", ""), (r"\* self\.element_layout\(\)\.size\(\)", ""),
+    (r"\.rev\(\)", ""), (r"unwrap_or_else", "unwrap_or_else"), (r"TypeId::of::<T>\(\)", "TypeId::of::<Unknown>()"), (r"needs_drop::<T>\(\)", "needs_drop::<T>() == false"), (r"!Unknown::is", "Unknown::is"), (r"(?<!!)Unknown::is", "!Unknown::is"),
+]
 DELETABLE = re.compile(r"^\s*(self\.[a-z_\.]+\s*[-+]?=\s*[^;]+;|any_vec_raw\.len\s*[-+]?=\s*[^;]+;|mem::forget\([a-z_]+\);|self\.op\.consume\(\);|[a-z_\.]*reserve[a-z_]*\([^;]*\);|drop_elements_range\($|cloned\.len = self\.len;|ptr = ptr\.add\([^;]+\);|self\.type_check\(&value\);|self\.raw\.type_check\(&value\);|self\.raw\.index_check\(index\);|self\.this\(\)\.index_check\(index\);|assert[a-z_!]*\(.*\);)\s*$")
 
 
@@ -139,12 +147,19 @@ def main():
     limit = int(args[args.index("--limit") + 1]) if "--limit" in args else None
     out = args[args.index("--out") + 1] if "--out" in args else "/tmp/ms/results.jsonl"
     global PROPS, WORK
-    if "--type-level" in args:
+    if "--second" in args:
+        global OPS
+        OPS = OPS2
+        muts = [m for m in gen_mutants(only) if m[4] != "delete statement"]
+        WORK = "/tmp/ms2"
+    elif "--type-level" in args:
         muts = gen_type_mutants()
         PROPS = ["C15", "C16"]
         WORK = "/tmp/mst"
     else:
         muts = gen_mutants(only)
+    if "--list" in args and "--second" in args:
+        pass
     if "--list" in args:
         for k, m in enumerate(muts):
             print(k, os.path.relpath(m[0], REPO), m[1] + 1, m[4], "|", m[3].strip())
